@@ -16,9 +16,11 @@ Menu(w) == IF Small THEN {{}, {w - 1}, AllBits(w), {i \in AllBits(w) : i % 2 = 1
 TooBig(w) == IF Small THEN {{w}, {0, w}} ELSE {{w}, {0, w}, {w, w + 1}, AllBits(w + 1)}
 Queries == {"names", "names_grp", "regs_grp", "find_grp", "bitfield_names", "config", "config_diff", "export",
             "image_info", "str", "hex_values", "enum_values", "schema", "reset_values_get", "diff"}
+\* a layout may describe a PART of a register file (a shipped group with its members and neighbours): `rest` = top-level registers outside of it
+Rest(La) == IF "rest" \in DOMAIN La THEN La.rest ELSE 0
 Init == /\ lay \in 1..Len(Layouts)
         /\ bits = ResetBits(Layouts[lay])
-        /\ nregs = Cardinality(Top(Layouts[lay]))
+        /\ nregs = Cardinality(Top(Layouts[lay])) + Rest(Layouts[lay])
         /\ act = [a |-> "Init"]
 Keep == UNCHANGED <<lay, nregs>>
 SetReg(r, V, raw) ==
@@ -73,6 +75,9 @@ EnumWriteWins == act.a = "SetFieldEnum" /\ ~act.refused =>
                    FieldVal(L, bits, act.r, act.f) = {i \in ToSet(Fld(L, act.r, act.f).enums[act.e].v) : i >= Fld(L, act.r, act.f).shr}
 \* a whole-register write is read back through the same view, and a bit-field reads the corresponding slice of it
 RegWriteWins == act.a = "SetReg" /\ ~act.refused => View(L, bits, act.r, act.raw) = act.v
+\* every group of the layout is exactly as wide as the registers behind it (the premise under which RegWriteWins holds for groups:
+\* RegFileMC_untiled.cfg refutes RegWriteWins on a layout that breaks it)
+GroupsTile == \A g \in Groups(L) : Tiles(L, g)
 \* writing back what a view shows changes nothing: the views are consistent with each other
 ViewsConsistent == \A r \in Regs(L) : \A raw \in BOOLEAN : SetView(L, bits, r, View(L, bits, r, raw), raw) = bits
 \* a bit-field write leaves every other bit-field of every register unchanged
